@@ -29,7 +29,7 @@ template <class X> struct Q {
     // dissect an arbitrary query string and compare with the model
     void dissect_check(Ctx& c, const Str& q, int plus, int br, int variant) {
         typename X::S w = widen<X>(q);
-        GuardedInput gin; gin.set(w.data(), w.size() * sizeof(Char), (int)(c.case_index & 1));
+        static GuardedInput gin; gin.set(w.data(), w.size() * sizeof(Char), (int)(c.case_index & 1));
         const Char* first = (const Char*)gin.ptr;
         QList* list = nullptr; int count = -3; int rc; UriMemoryManager* mm = nullptr;
         LibcWatch& lw = libc_watch(); lw.reset();
